@@ -45,6 +45,9 @@ def run_potential(prog, cls, val, twice=False, preset=()):
                 kw[p] = NONE
             elif v is True or v is False:
                 kw[p] = Const(v)
+            elif v in ('np.True_', 'np.False_'):
+                kw[p] = Const(v == 'np.True_')
+                kw[p].npbool = True
             else:
                 ip.declare(p)
                 kw[p] = Num(N.sym(p))
@@ -211,6 +214,39 @@ def rule_core_infinite(ctx, rule='R10.i'):
             ctx.holds(rule, cls.qualname, 'with high_value=+inf (IEEE rules) the tail is the finite-value tail and the core is +inf',
                       f.loc())
     ctx.floor(rule, n, 3, 'hard-core potentials with a high_value parameter')
+
+
+def rule_flag_truthiness(ctx, rule='R10.f'):
+    """a boolean option acts through its truth value: passed as numpy.bool_ (what a numpy comparison such as
+    `eps.min() > 0` yields) it gives the potential it gives for the Python literal of the same truth value"""
+    n = 0
+    for cls in potential_classes(ctx.prog):
+        f = cls.find_method('calculate')
+        params, vals = valuations(cls)
+        flags = sorted({p for v in vals for p, x in v.items() if x is True or x is False})
+        for p_ in flags:
+            for val in vals:
+                if val.get(p_) not in (True, False):
+                    continue
+                alt = dict(val)
+                alt[p_] = 'np.True_' if val[p_] else 'np.False_'
+                tag = '%s with %s=numpy.bool_(%s)' % (_valname(val), p_, val[p_])
+                try:
+                    t0 = run_potential(ctx.prog, cls, val)['res'].t
+                    t1 = run_potential(ctx.prog, cls, alt)['res'].t
+                except (Unsupported, Raised) as e:
+                    ctx.undecided(rule, cls.qualname, '%s: %s' % (tag, e), f.loc())
+                    continue
+                n += 1
+                d, _ = P.compare(t0, t1)
+                if d:
+                    ev, a_, b_ = d[0]
+                    ctx.violation(rule, cls.qualname, 'flag-truthiness:%s:%s' % (p_, _valname(val)),
+                                  '%s: u(r) is %s, with the Python literal it is %s%s' % (
+                                      tag, N.show(b_)[:120], N.show(a_)[:120], (' (where %s)' % P.show_val(ev)) if ev else ''), f.loc())
+                else:
+                    ctx.holds(rule, cls.qualname, '%s: same u(r) as with the Python literal' % tag, f.loc(), key=tag)
+    ctx.floor(rule, n, 4, 'potential flag valuations re-run with a numpy boolean')
 
 
 def rule_cut_shift(ctx, rule='R10.k'):
